@@ -199,7 +199,11 @@ where
 
 impl GlyphVariations {
     /// Construct a new set of variation deltas for a glyph.
-    pub fn new(gid: GlyphId, variations: Vec<GlyphDeltas>) -> Self {
+    pub fn new(gid: GlyphId, mut variations: Vec<GlyphDeltas>) -> Self {
+        // A tuple in which no delta has to be encoded has no effect, and it
+        // cannot be written: an empty list of point numbers is how "all
+        // points" is spelled in the binary format.
+        variations.retain(|var| var.deltas.iter().any(|delta| delta.required));
         Self { gid, variations }
     }
 
